@@ -92,6 +92,7 @@ def sensitivity(seed, rest):
     quick check must report a VIOLATION."""
     ap = argparse.ArgumentParser()
     ap.add_argument("--only", default="")
+    ap.add_argument("--start", default="", help="skip items sorting before this name")
     ap.add_argument("--tier", default="quick")
     a = ap.parse_args(rest)
     items = []
@@ -109,13 +110,18 @@ def sensitivity(seed, rest):
     for name, m, patch in items:
         if a.only and a.only not in name:
             continue
+        if a.start and name < a.start:
+            continue
         props = m.get("detect_with") or [m["property"]]
         if m.get("effective_on_current_tree") is False:
             print(f"{name}: skipped (harmless on the current tree: {str(m.get('note', ''))[:80]})")
             continue
         hit = []
         for prop in props:
-            rc, out = run_on_patch(prop, patch, a.tier, seed=seed, runs=m.get("runs"), wall=m.get("wall"))
+            try:
+                rc, out = run_on_patch(prop, patch, a.tier, seed=seed, runs=m.get("runs"), wall=m.get("wall"))
+            except RuntimeError as e:
+                rc, out = 3, f"STALE PATCH (does not apply to the current tree): {str(e)[:150]}"
             viol = [ln for ln in out.splitlines() if ln.startswith("VIOLATION")]
             hit.append((prop, rc, len(viol)))
             tail = [ln for ln in out.splitlines() if ln.strip().startswith("class=")][:1]
